@@ -1,0 +1,83 @@
+//go:build verif
+// +build verif
+
+package s3bolt
+
+// Contracts for the verification tooling (build tag verif). Comment-only.
+//
+// C10: the bolt file's top-level buckets are one namespace shared by the S3 buckets and
+// the backend's bookkeeping bucket (Backend.metaBucketName, "_meta"). The library
+// contracts of (*bolt.Tx).Bucket / CreateBucket / DeleteBucket (libcontracts/bolt.gvc)
+// require that a name is never the bookkeeping name; bolt.DB.View/Update are declared
+// `invokes fn`, so the precondition each closure states about the name it captured is an
+// obligation of the enclosing method, at the point where the transaction is started.
+// Only these call-site preconditions are claimed for the functions below (no props line:
+// their other obligations belong to no property).
+
+//@ pred bdb(db) = db != nil && db.bolt != nil && allocated(db.metaBucketName) && str(db.metaBucketName) == "_meta"
+
+//@ immutable Backend metaBucketName init New
+
+//@ func New
+//@ loop 1 invariant  meta:   b != nil && imp(len(opts) == 0, str(b.metaBucketName) == "_meta")
+//@ ensures [C10]     meta:   ret0 != nil && imp(len(opts) == 0, str(ret0.metaBucketName) == "_meta")
+
+//@ func (*Backend).metaBucket
+//@ unproved pre:*notmeta* this is the one place that is meant to open the bookkeeping bucket
+//@ modifies nothing
+
+// helpers that only talk to the bolt file (bson encoding + Bucket.Put/Get/Delete): trusted to leave Go state alone
+//@ func (*metaBucket).createS3Bucket
+//@ nobody
+//@ modifies nothing
+//@ func (*metaBucket).deleteS3Bucket
+//@ nobody
+//@ modifies nothing
+//@ func (*metaBucket).s3Bucket
+//@ nobody
+//@ modifies nothing
+
+//@ func (*Backend).BucketExists
+//@ requires [C10]    inv:    bdb(db)
+//@ func (*Backend).BucketExists$1
+//@ requires [C10]    notmeta: *name != "_meta"
+
+//@ func (*Backend).ListBucket
+//@ requires [C10]    inv:    bdb(db)
+//@ func (*Backend).ListBucket$1
+//@ requires [C10]    notmeta: *name != "_meta"
+
+//@ func (*Backend).CreateBucket
+//@ requires [C10]    inv:    bdb(db)
+//@ func (*Backend).CreateBucket$1
+//@ requires [C10]    notmeta: *name != "_meta"
+
+//@ func (*Backend).DeleteBucket
+//@ requires [C10]    inv:    bdb(db)
+//@ func (*Backend).DeleteBucket$1
+//@ requires [C10]    notmeta: str(*nameBts) != "_meta"
+
+//@ func (*Backend).ForceDeleteBucket
+//@ requires [C10]    inv:    bdb(db)
+//@ func (*Backend).ForceDeleteBucket$1
+//@ requires [C10]    notmeta: str(*nameBts) != "_meta"
+
+//@ func (*Backend).GetObject
+//@ requires [C10]    inv:    bdb(db)
+//@ func (*Backend).GetObject$1
+//@ requires [C10]    notmeta: *bucketName != "_meta"
+
+//@ func (*Backend).PutObject
+//@ requires [C10]    inv:    bdb(db)
+//@ func (*Backend).PutObject$1
+//@ requires [C10]    notmeta: *bucketName != "_meta"
+
+//@ func (*Backend).DeleteObject
+//@ requires [C10]    inv:    bdb(db)
+//@ func (*Backend).DeleteObject$1
+//@ requires [C10]    notmeta: *bucketName != "_meta"
+
+//@ func (*Backend).DeleteMulti
+//@ requires [C10]    inv:    bdb(db)
+//@ func (*Backend).DeleteMulti$1
+//@ requires [C10]    notmeta: *bucketName != "_meta"
